@@ -356,6 +356,50 @@ def cache_variants(branch, kind, fill):
     }
 
 
+def cache_discipline(ctx, E, s, prop="C03"):
+    """interpolator caches: the accessor evaluates the cached interpolator iff it was built for the same (branch, kind, fill), builds a
+    fresh one from the native data of the requested branch otherwise, and afterwards the cache describes the current arguments -
+    interpreted on the accessors with five abstract cache states, so it holds however the test is spelled (inline, helper, ...)"""
+    I = E.I
+    fla = E.model.func(f"{PI}.loading_at")
+    fpa = E.model.func(f"{PI}.pressure_at")
+    I.libmeth[("CachedInterp", "__call__")] = lambda I, v, a, k, n: I.apply_opaque(v.attrs["interp_fun"], a, k, n)
+    x = Num.atom("x")
+    n = 0
+    for which, fi, field in (("loading_at", fla, "l_interpolator"), ("pressure_at", fpa, "p_interpolator")):
+        for branch, kind, fill in [("ads", "linear", None), ("des", "cubic", None), ("ads", "linear", Num.const(0)), ("des", "linear", "extrapolate")]:
+            for cname, cobj in cache_variants(branch, kind, fill).items():
+                kw = {"branch": branch, "interpolation_type": kind, "interp_fill": fill}
+                res = E.run(fi, lambda: mk_point_isotherm(I, s, cache={field: cache_variants(branch, kind, fill)[cname]}), [x], kw)
+                for oc, obj in res:
+                    n += 1
+                    xs, ys = ("P", "L") if which == "loading_at" else ("L", "P")
+                    b = "B==0" if branch == "ads" else "B==1"
+                    fresh = f"interp1d({xs}@{b},{ys}@{b},kind={kind!r}" + \
+                        (f",bounds_error=False,fill_value={I.describe(fill)},kind={kind!r})" if fill is not None else ")")
+                    if fill is not None:
+                        fresh = f"interp1d({xs}@{b},{ys}@{b},bounds_error=False,fill_value={I.describe(fill)},kind={kind!r})"
+                    want = "CACHED(x)" if cname == "same" else f"{fresh}(x)"
+                    got = I.describe(oc.value) if oc.kind == "ok" else str(oc.exc)
+                    ctx.ob(oc.kind == "ok" and got == want,
+                           Finding(f"{prop}.R-cache", fi.where, f"{which}|cache={cname}|fill={'set' if fill is not None else 'none'}",
+                                   f"{which}(x, branch={branch!r}, interpolation_type={kind!r}, interp_fill={I.describe(fill)}) with cached "
+                                   f"interpolator '{cname}': evaluates {got}; required {want}"),
+                           nontrivial_key=(which, "cache", cname, str(fill)),
+                           sample={"rule": "R-cache", "call": which, "cache": cname, "evaluates": got})
+                    # the cache field afterwards describes the current arguments
+                    c = obj.attrs.get(field)
+                    if oc.kind == "ok" and c is not None:
+                        okk = (c.attrs.get("interp_branch"), c.attrs.get("interp_kind")) == (branch, kind) and \
+                            I.py_eq(c.attrs.get("interp_fill"), fill) is True
+                        ctx.ob(okk, Finding(f"{prop}.R-cache", fi.where, f"{which}|cache-key-after|{cname}",
+                                            f"{which}: cache key after the call is ({c.attrs.get('interp_branch')}, "
+                                            f"{c.attrs.get('interp_kind')}, {I.describe(c.attrs.get('interp_fill'))}), "
+                                            f"arguments were ({branch}, {kind}, {I.describe(fill)})"))
+
+    return n
+
+
 def work_point_at(E, ctx, states, shard):
     I, t, o = E.I, E.t, E.o
     pres, load_, mat, tus = states
@@ -401,37 +445,7 @@ def work_point_at(E, ctx, states, shard):
                         check_value(ctx, "C03.R-acc", fi, call, key, got_oc, exp, None, None, I, allow_refuse=under)
     # cache discipline
     if shard[0] == 0:
-        s = mkstate(pres[0], load_[0], mat[0], tus[0])
-        for which, fi, field in (("loading_at", fla, "l_interpolator"), ("pressure_at", fpa, "p_interpolator")):
-            for branch, kind, fill in [("ads", "linear", None), ("des", "cubic", None), ("ads", "linear", Num.const(0)), ("des", "linear", "extrapolate")]:
-                for cname, cobj in cache_variants(branch, kind, fill).items():
-                    kw = {"branch": branch, "interpolation_type": kind, "interp_fill": fill}
-                    res = E.run(fi, lambda: mk_point_isotherm(I, s, cache={field: cache_variants(branch, kind, fill)[cname]}), [x], kw)
-                    for oc, obj in res:
-                        n += 1
-                        xs, ys = ("P", "L") if which == "loading_at" else ("L", "P")
-                        b = "B==0" if branch == "ads" else "B==1"
-                        fresh = f"interp1d({xs}@{b},{ys}@{b},kind={kind!r}" + \
-                            (f",bounds_error=False,fill_value={I.describe(fill)},kind={kind!r})" if fill is not None else ")")
-                        if fill is not None:
-                            fresh = f"interp1d({xs}@{b},{ys}@{b},bounds_error=False,fill_value={I.describe(fill)},kind={kind!r})"
-                        want = "CACHED(x)" if cname == "same" else f"{fresh}(x)"
-                        got = I.describe(oc.value) if oc.kind == "ok" else str(oc.exc)
-                        ctx.ob(oc.kind == "ok" and got == want,
-                               Finding("C03.R-cache", fi.where, f"{which}|cache={cname}|fill={'set' if fill is not None else 'none'}",
-                                       f"{which}(x, branch={branch!r}, interpolation_type={kind!r}, interp_fill={I.describe(fill)}) with cached "
-                                       f"interpolator '{cname}': evaluates {got}; required {want}"),
-                               nontrivial_key=(which, "cache", cname, str(fill)),
-                               sample={"rule": "R-cache", "call": which, "cache": cname, "evaluates": got})
-                        # the cache field afterwards describes the current arguments
-                        c = obj.attrs.get(field)
-                        if oc.kind == "ok" and c is not None:
-                            okk = (c.attrs.get("interp_branch"), c.attrs.get("interp_kind")) == (branch, kind) and \
-                                I.py_eq(c.attrs.get("interp_fill"), fill) is True
-                            ctx.ob(okk, Finding("C03.R-cache", fi.where, f"{which}|cache-key-after|{cname}",
-                                                f"{which}: cache key after the call is ({c.attrs.get('interp_branch')}, "
-                                                f"{c.attrs.get('interp_kind')}, {I.describe(c.attrs.get('interp_fill'))}), "
-                                                f"arguments were ({branch}, {kind}, {I.describe(fill)})"))
+        n += cache_discipline(ctx, E, mkstate(pres[0], load_[0], mat[0], tus[0]))
     return n
 
 
